@@ -56,6 +56,8 @@ impl<T: ?Sized> KCell<T> {
     ///
     /// See `try_borrow` for a non-panicking/non-blocking version.
     pub fn borrow(&self) -> Borrow<'_, T> {
+        #[cfg(feature = "koto_verif")]
+        crate::verif::schedule_point();
         Borrow(borrow(&self.0))
     }
 
@@ -63,6 +65,8 @@ impl<T: ?Sized> KCell<T> {
     ///
     /// Returns an error if the value is currently mutably borrowed.
     pub fn try_borrow(&self) -> Option<Borrow<'_, T>> {
+        #[cfg(feature = "koto_verif")]
+        crate::verif::schedule_point();
         try_borrow(&self.0).map(Borrow)
     }
 
@@ -76,6 +80,8 @@ impl<T: ?Sized> KCell<T> {
     ///
     /// See `try_borrow_mut` for a non-panicking version.
     pub fn borrow_mut(&self) -> BorrowMut<'_, T> {
+        #[cfg(feature = "koto_verif")]
+        crate::verif::schedule_point();
         BorrowMut(borrow_mut(&self.0))
     }
 
@@ -83,6 +89,8 @@ impl<T: ?Sized> KCell<T> {
     ///
     /// Returns an error if the value is currently mutably borrowed.
     pub fn try_borrow_mut(&self) -> Option<BorrowMut<'_, T>> {
+        #[cfg(feature = "koto_verif")]
+        crate::verif::schedule_point();
         try_borrow_mut(&self.0).map(BorrowMut)
     }
 }
